@@ -191,7 +191,11 @@ pub struct WSim<E: Env + Clone> {
 impl<E: Env + Clone> WSim<E> {
     /// Create a fresh writer core.
     pub fn create(env: &E, policy: ObsPolicy) -> Result<Self, Failure> {
-        let core = match env.create(hc::test_keypair()) {
+        Self::create_with_key(env, policy, hc::test_keypair())
+    }
+
+    pub fn create_with_key(env: &E, policy: ObsPolicy, kp: PartialKeypair) -> Result<Self, Failure> {
+        let core = match env.create(kp) {
             Ok(Ok(c)) => c,
             Ok(Err(e)) => return Err(Failure::new(format!("create-error:{}", err_kind(&e)), format!("creating a core failed: {e}"))),
             Err(p) => return Err(panic_failure("create", &p)),
